@@ -222,6 +222,10 @@ def main(argv=None):
     except Exception as e:  # noqa: BLE001
         acc.violation({"clause": "harness-error", "exc": type(e).__name__, "unit": "finish"}, {"harness": "finish"}, traceback.format_exc())
 
+    if acc.n.get("b_scopes"):
+        from . import bscope
+
+        extra["engine_b"] = bscope.coverage(acc)
     findings = load_findings()
     known, fresh = [], []
     for key in sorted(acc.viol):
